@@ -26,14 +26,17 @@ CHECKS = {
    technique='TLC checks the Pratt grammar of the spec against an independent precedence-level rule; all operator pairs replayed with and without explicit parentheses',
    text='GenOps builds x op1 y op2 z for all 18x18 operator spellings (and unary prefixes); TLC checks on the model that Grammar groups '
         'exactly as the precedence levels dictate, that unary operators bind tighter, and that full parenthesisation is neutral; every '
-        'expression and its fully parenthesised form are evaluated on the real code over all assignments of pool values to x, y, z.',
+        'expression and its fully parenthesised form are evaluated on the real code over all assignments of pool values to x, y, z; '
+        'operator triples (four operands) and, from GenChain, runs of up to 65 (thorough 257) operands of one operator or two alternating '
+        'operators of a level are compared with their left-nested parenthesised text, also on documents where grouping changes rounding.',
    note='Trusts TLC and the level table written from the standard; documents are bounded to the value pool.'),
  'C12': dict(
    level='model_checking', ref='DESIGN.md 6 (C12), 3.4',
    technique='Slice.tla (two definitions cross-checked by TLC) as oracle; exhaustive small-scope enumeration of (n,start,stop,step) replayed into the Go library',
    text='SliceLemmas checks clamp-and-walk against the set definition and the huge-magnitude lemma on every small instance; GenSlice '
         'enumerates every start/stop/step (absent, -n-2..n+2, 64-bit limits, step 0) on arrays and mixed-width strings of length <= n, '
-        'alone and followed by selectors, and the harness replays each.',
+        'alone and followed by selectors, and the harness replays each; integer literals in unusual spellings (010, -0) and, from GenAlign, '
+        'string slices with a multi-byte character at every byte offset 0..26 are added.',
    note='Exhaustive only up to the length bound; magnitudes beyond it are represented by the 64-bit limit literals (justified by HugeLemma).'),
  'C17': dict(
    level='model_checking', ref='DESIGN.md 6 (C17)',
@@ -69,21 +72,25 @@ CHECKS = {
    text='Decimal.tla computes exact results on digit sequences; DecimalLaws checks it against TLC integers on all pairs of small scaled '
         'integers (and algebraic laws on 34-digit operands in the thorough tier); GenArith takes every ordered pair of the operand pool '
         'through + - * / // %, six comparisons, sum, avg, abs, ceil, floor, unary signs and to_number, with operands as literals, JSON '
-        'text and decimal values; results of more than 34 digits must lie within one unit of the 34th digit.',
+        'text and decimal values; results of more than 34 digits must lie within one unit of the 34th digit. GenBigArr describes arrays of '
+        '127..10000 consecutive integers (around 0, 2^53, 10^15; six Go carriers) and computes sum/avg/max/min/sort results as closed forms '
+        'with Decimal.tla (cross-checked against Eval on small instances).',
    note='The oracle is my own bignum code (trusted after the law checks). // and % are Open for operands of opposite sign, results below the normal range are Open.'),
  'C11': dict(
    level='model_checking', ref='DESIGN.md 6 (C11)',
    technique='strings are code-point sequences in the TLA+ spec; TLC enumerates all strings over a mixed-width alphabet x string operations, replayed into the Go library',
    text='GenStr builds every string of length <= n over {a, e-acute, U+0301, euro, U+FFFD, emoji} and evaluates ~170 string operations '
         '(length, slices, reverse, find_*, pad_*, split, sort/max/min/sort_by, starts/ends_with, contains, join, replace, trim) on each; '
-        'TLC checks the renaming homomorphism on the model; the harness compares the real results and checks every result string is valid UTF-8.',
+        'TLC checks the renaming homomorphism on the model; the harness compares the real results and checks every result string is valid UTF-8. '
+        'GenAlign moves one multi-byte character through every offset of a longer ASCII string; recorded string operations on random strings are validated by TLC.',
    note='Alphabet and length bounded; case mapping and default trim on non-ASCII text are Open.'),
  'C13': dict(
    level='model_checking', ref='DESIGN.md 6 (C13)',
    technique='stable insertion sort in TLA+ with its defining predicate checked by TLC; parameterised arrays (lengths around and beyond the small-array threshold) replayed into the Go library',
    text='GenSort builds arrays of records with unique payloads from (length, key pattern, key kind, seed); TLC checks that the spec sort is a '
         'permutation, ordered, and keeps ties in input order; the harness replays sort_by, max_by, min_by, sort, max, min and the '
-        'invalid-type cases and compares exactly (stability is visible through the payloads).',
+        'invalid-type cases and compares exactly (stability is visible through the payloads); sorts nested inside sort keys (re-entrancy); '
+        'sort operations recorded from the real code on random arrays of up to 200 elements are validated by TLC against the specification sort.',
    note='Lengths up to 20 (quick) / 64 (thorough); extremal elements with tied keys are Open.'),
  'C16': dict(
    level='model_checking', ref='DESIGN.md 6 (C16), 3.3',
@@ -107,7 +114,8 @@ CHECKS = {
    text='TLC enumerates every history of the API machine within the bound (and random longer ones), checks Immutable (action property), Pure, '
         'StaticAtCompile, StaticIgnoresDoc and Closed on the model, and the harness replays each history: snapshots of all documents '
         '(including spare slice capacity) and all earlier results are compared after every call; Expression.Search is compared with the '
-        'specification and with a fresh one-shot Search; MustCompile must panic exactly when Compile fails.',
+        'specification and with a fresh one-shot Search; MustCompile must panic exactly when Compile fails. In the other direction random '
+        'histories recorded from the real API are validated by TLC against TraceAPI.tla (the actions of API.tla).',
    note='Histories bounded to 3 calls exhaustively (8 by simulation) over a fixed pool of 16 texts and 3 documents.'),
  'C07': dict(
    level='model_checking', ref='DESIGN.md 6 (C07), 4.5',
@@ -129,7 +137,7 @@ CHECKS = {
    technique='model-derived inputs (integer parameter positions x 64-bit magnitudes, nesting families) with expected outcomes; time, allocation and evaluator steps measured on the real code against a twin input',
    text='Running time is not a model property. GenCost supplies every integer parameter position at magnitudes up to 2^63-1 together with the '
         'twin magnitude 1000 (same outcome by the TLC-checked huge-magnitude lemma); the harness requires equal evaluator steps and time / '
-        'allocation within a generous factor of the twin, scales 8 nesting families and requires at most ~quadratic growth, and runs all of it '
+        'allocation within a generous factor of the twin, scales 8 nesting families (plus flat, let-wrapped, document-depth and count families) and requires at most ~quadratic growth, and runs all of it '
         'under a per-case watchdog. LexMachine checks strict progress of the tokeniser on the model.',
    note='Measurement-based: thresholds are generous to avoid flakiness (50x time, 8x allocation); a timeout counts only if it reproduces in a fresh process.'),
  'C14': dict(
@@ -137,7 +145,8 @@ CHECKS = {
    technique='carrier-independence is structural in the spec (Eval has no carrier input); TLC enumerates values x carrier assignments x expressions, replayed with each Go numeric kind',
    text='GenCarrier emits, for every pair of pool values and every assignment of 16 number carriers (json.Number in three spellings, all integer '
         'kinds, float32/64, decimal) to the number leaves, 53 expressions (arithmetic, comparison, sorting, truthiness, type, integer-argument '
-        'positions) with the one outcome the specification assigns; the harness builds the document with those Go types and compares.',
+        'positions) with the one outcome the specification assigns; the harness builds the document with those Go types and compares. GenArith '
+        '(mixed carriers up to 34 digits), GenIntArg (integer arguments in 32 numeric spellings) and GenBigArr (large arrays around 2^53) run too.',
    note='Values are chosen so that every intermediate is exactly representable; assignments that cannot hold a value are skipped and counted.'),
  'C15': dict(
    level='model_checking', ref='DESIGN.md 6 (C15), 3.5',
@@ -151,7 +160,7 @@ CHECKS = {
    technique='pipe law checked on the model; result of e1 fed back as Go value into e2 and compared with (e1)|(e2) and the spec; JSON type walk and encoding/json round trip on every result',
    text='GenPipe pairs 29 result-producing expressions with 24 consumers on 15 documents; the harness searches e1, requires plain JSON data that '
         'survives json.Marshal/decode unchanged, feeds the Go value itself into e2 and compares with (e1) | (e2) and with the specification; '
-        'API.tla histories add FeedBack of results as documents of later calls.',
+        'API.tla histories add FeedBack of results as documents of later calls; recorded histories with fed-back results are validated by TraceAPI.tla.',
    note='Pool-bounded.'),
 }
 
